@@ -118,6 +118,10 @@ def gpIdCx := 1
 def encPairK := 1
 def encX86Op := 2
 def encMovabs := 3
+def encEnqcmdMovdir64b := 4
+def encMemSizeRequired := 5   -- X86Arith, Bt, Crc, IncDec, Ins, M_GPB, M_GPB_MulDiv, Mov, Outs, Pop, Rot, StrMm, Test
+def encImul := 6
+def sregIdEs := 1
 def gpIdBx := 3
 def gpIdSp := 4
 def gpIdBp := 5
@@ -132,7 +136,7 @@ inductive Err
   | invalidAddress | invalidAddress64Bit | invalidAddress64BitZeroExtension | invalidOperandSize | invalidState
   | invalidUseOfGpq | invalidUseOfGpbHi | invalidImmediate | invalidLockPrefix | invalidPrefixCombination
   | invalidXAcquirePrefix | invalidXReleasePrefix | invalidRepPrefix | invalidKZeroUse | invalidEROrSAE
-  | invalidExtraReg | invalidKMaskUse | invalidRexPrefix
+  | invalidExtraReg | invalidKMaskUse | invalidRexPrefix | ambiguousOperandSize
   deriving DecidableEq, Repr
 
 def Err.name : Err → String
@@ -146,6 +150,7 @@ def Err.name : Err → String
   | .invalidXReleasePrefix => "InvalidXReleasePrefix" | .invalidRepPrefix => "InvalidRepPrefix"
   | .invalidKZeroUse => "InvalidKZeroUse" | .invalidEROrSAE => "InvalidEROrSAE" | .invalidExtraReg => "InvalidExtraReg"
   | .invalidKMaskUse => "InvalidKMaskUse" | .invalidRexPrefix => "InvalidRexPrefix"
+  | .ambiguousOperandSize => "AmbiguousOperandSize"
 
 /-- an `Operand_` as far as `validate` looks at it -/
 inductive Operand
@@ -486,11 +491,50 @@ def sigStage (R : ResolvedInst) (inst : Inst) (operands : List Operand) : Except
     let hasRex := test options optRex || combinedRegMask &&& 0xFFFFFF00 != 0
     if hasRex && test combinedFlags fRegGpbHi then bad .invalidUseOfGpbHi else .ok (sigs, combinedFlags, combinedRegMask)
 
-/-- stage 3: the instruction's signature rows against the translated operands -/
+/-- `kMemMask & ~kMemUnspecified` -/
+def fMemSizedMask := fMemMask - fMemUnspecified
+
+/-- (fixes/C13-12) the sized memory alternatives a row offers at the positions of the sizeless memory operands
+    (`row_mem_sizes`), for the position-by-position loop -/
+def rowSizesExplicit : List (Nat × Nat) → List (Nat × Nat) → Nat
+  | o :: os, r :: rs => (if test o.1 fMemUnspecified then r.1 &&& fMemSizedMask else 0) ||| rowSizesExplicit os rs
+  | _, _ => 0
+
+/-- the same for the loop that skips implicit reference operands -/
+def rowSizesSkipping : List (Nat × Nat) → List (Nat × Nat) → Nat
+  | [], _ => 0
+  | _ :: _, [] => 0
+  | o :: os, r :: rs =>
+    if test r.1 fFlagImplicit then rowSizesSkipping (o :: os) rs
+    else (if test o.1 fMemUnspecified then r.1 &&& fMemSizedMask else 0) ||| rowSizesSkipping os rs
+termination_by a b => a.length + b.length
+
+/-- `row_mem_sizes` of every row that matches the operands cleanly (in table order) -/
+def cleanMatchSizes (mode : Nat) (ops : List (Nat × Nat)) : List (Nat × Nat × Nat × List (Nat × Nat)) → List Nat
+  | [] => []
+  | (opCount, smode, implicitCount, refs) :: rest =>
+    if smode &&& mode = 0 then cleanMatchSizes mode ops rest
+    else if opCount = ops.length then
+      (if matchExplicit ops refs false == (true, false) then [rowSizesExplicit ops refs] else []) ++ cleanMatchSizes mode ops rest
+    else if opCount - implicitCount = ops.length then
+      (if matchSkippingImplicit ops refs false == (true, false) then [rowSizesSkipping ops refs] else []) ++ cleanMatchSizes mode ops rest
+    else cleanMatchSizes mode ops rest
+
+/-- `is_mem_size_required_by_encoding(encoding, op_count)` -/
+def memSizeRequired (enc nOps : Nat) : Bool := enc == encMemSizeRequired || (enc == encImul && nOps == 1)
+
+/-- stage 3: the instruction's signature rows against the translated operands; with a sizeless memory operand and an
+    encoding that takes the operand size from it, matching rows that differ in the memory size make it ambiguous -/
 def matchStage (R : ResolvedInst) (mode : Nat) (sigs : List (Nat × Nat)) : Err :=
   if R.rows.isEmpty then .ok else
   let (m, g) := matchSignatures mode sigs R.rows false
-  if m then .ok else if g then .invalidImmediate else .invalidInstruction
+  if m then
+    if memSizeRequired R.enc sigs.length && sigs.any (fun o => test o.1 fMemUnspecified) &&
+       (match cleanMatchSizes mode sigs R.rows with
+        | [] => false
+        | x :: xs => xs.any (· != x)) then .ambiguousOperandSize
+    else .ok
+  else if g then .invalidImmediate else .invalidInstruction
 
 /-- stage 4: encoding-specific tests, EVEX-only resources, AVX-512 options, {extra} register -/
 def tailStage (R : ResolvedInst) (inst : Inst) (operands : List Operand) (combinedFlags : Nat) : Err :=
@@ -502,6 +546,11 @@ def tailStage (R : ResolvedInst) (inst : Inst) (operands : List Operand) (combin
   let given := operands.take (firstNone operands)
   -- (fixes/C13-11) the X86Op encoding class has implicit operands only: no explicit immediate
   if R.enc == encX86Op && test combinedFlags fImmMask then .invalidInstruction else
+  -- (fixes/C13-12) enqcmd|enqcmds|movdir64b: both memory operands use the same base type, the destination segment is ES
+  if R.enc == encEnqcmdMovdir64b &&
+     (match given with
+      | [.mem _ bt0 _ _ _ _ _ seg0 _, .mem _ bt1 _ _ _ _ _ _ _] => bt0 != bt1 || (seg0 != 0 && seg0 != sregIdEs)
+      | _ => false) then .invalidInstruction else
   -- (fixes/C13-7) vp2intersectd|q write an aligned pair of mask registers
   let ePair : Err :=
     if R.enc == encPairK then
